@@ -116,6 +116,8 @@ where
         R: Send + 'static,
     {
         let arc = self.obj.clone();
+        #[cfg(deadpool_verif)]
+        let arc = deadpool_runtime::verif::HookedStdMutex(arc);
         #[cfg(feature = "tracing")]
         let span = tracing::Span::current();
         self.runtime
@@ -156,6 +158,8 @@ where
 {
     fn drop(&mut self) {
         let arc = self.obj.clone();
+        #[cfg(deadpool_verif)]
+        let arc = deadpool_runtime::verif::HookedStdMutex(arc);
         // Drop the `rusqlite::Connection` inside a `spawn_blocking`
         // as the `drop` function of it can block.
         self.runtime
